@@ -1398,6 +1398,8 @@ def _load_regiondata(rec, context):
 
     label = rec["label"]
     result = RegionData(label=label)
+    if "coords" in rec:
+        result.coords = context.object(rec["coords"])
 
     # we manually rebuild pixel/world components, so
     # we override this function. This is pretty ugly
